@@ -283,9 +283,14 @@ def execute(case):
                 with active(ctx):
                     loaded = read_sunvox_file(ctx.new_stream(data, "arg"))
                 env.LOG.take()
-                data2 = loaded.read()
-                if data2 != data:
-                    violations.append(_v("resave_byte_identical", detail={"op": i}))
+                # "any pattern byte image made of valid cells loads and saves back byte-identically":
+                # compare the pattern data chunks (whole-file stability is C05's subject)
+                from .. import chunkio as _ck
+
+                pd1 = [pl for _, nm, pl in _ck.split(data) if nm == b"PDTA"]
+                pd2 = [pl for _, nm, pl in _ck.split(loaded.read()) if nm == b"PDTA"]
+                if pd1 != pd2:
+                    violations.append(_v("pattern_image_identity", when="resave", detail={"op": i}))
                 w.project = loaded
                 w.pattern = loaded.patterns[0]
                 check_pattern_raw(w, violations, i)
